@@ -2123,7 +2123,7 @@ WITNESS_TRANSLATIONS = [
 # ----------------------------------------------------------------------------
 # main
 
-KNOWN_SIGS = set(KNOWN_LITERALS.values()) | {REPR_SIG, CLSNAME_SIG, CLASSGETITEM_SIG}
+KNOWN_SIGS = set(KNOWN_LITERALS.values()) | {REPR_SIG, CLASSGETITEM_SIG}   # CLSNAME_SIG: fixed in 40355f0
 TR_SIG = "translations-provider-rebindable-by-template"
 TR_METHODS = frozenset({"gettext", "ngettext", "pgettext", "npgettext"})
 MAGIC_NAMES = ["locale", "input_locale", "timezone", "input_timezone", "currency_code", "currency_format",
@@ -2294,10 +2294,15 @@ def main(chk: C.Check, build: C.Build) -> None:
                            f"filter in place of the injected argument: reads {reads}, outcome {out[:2]}",
                            {"source": wsrc, "cfg": cfg, "async": a, "data": [("o", ko)], "implementation": out})
 
-    out = run_impl("{{ [o] }}", [("o", ko)], undef="debug")
-    if out[0] == "ok" and CLS_SENT in out[1]:
-        chk.finding(CLSNAME_SIG, f"{{{{ [o] }}}} with DebugUndefined prints o.__class__.__name__: {out[1]!r:.100}",
-                    {"source": "{{ [o] }}", "undefined": "DebugUndefined", "data": [("o", ko)], "implementation": out})
+    # fixed in 40355f0: regression check -- no Python class name in the hint, printed or raised
+    for undef in ("debug", "strict", "falsy"):
+        for a in (False, True):
+            out = run_impl("{{ [o] }}|{{ [o].x }}", [("o", ko)], undef=undef, async_=a)
+            evaluations += 1
+            if any(CLS_SENT in str(x) for x in out[1:]):
+                report(CLSNAME_SIG, f"{{{{ [o] }}}} with {undef} undefined shows o.__class__.__name__: {out[1:]!r:.120}",
+                       {"source": "{{ [o] }}|{{ [o].x }}", "undefined": undef, "async": a, "data": [("o", ko)],
+                        "implementation": out})
     out = run_impl("{{ lst.size }}|{{ reg.admin_token }}", classobj_data())
     if out[0] == "ok" and ("list['size']" in out[1] or LOG.calls):
         chk.finding(CLASSGETITEM_SIG, "item access on a class object calls its __class_getitem__ with the template's "
